@@ -12,7 +12,9 @@ SEPS = [";", ",", "|", "\t", "~", "§", "¦"]
 # includes characters that str.splitlines() treats as line breaks but file iteration does not
 # (form feed, FS/RS, NEL, LINE SEPARATOR, VT): they are ordinary in-line characters of a CSV cell
 TEXT_ALPHA = ["a", "b", "Z", "é", " ", " ", "-", "n", "N", "1", "0", ".", "*", ":", "_", "x", "µ", "=", "'", '"', " ",
-              "\x0c", "\x1c", "\x1e", "\x85", "\u2028", "\x0b", "\x00"]
+              "\x0c", "\x1c", "\x1e", "\x85", "\u2028", "\x0b", "\x00",
+              # a decomposed and a composed spelling of one letter are different texts (no normalisation anywhere)
+              "e\u0301", "\u00e9", "\u1112\u1161\u11ab", "\ud55c", "\uff21"]
 
 
 def is_space(ch):
